@@ -298,6 +298,7 @@ def run(ctx):
                    "thread id destructor must return exactly its own _value to its _allocator")
 
 
+    thread_id_instance_agreement(ctx, "C14.R5c", fb)
     # ------------------------------------------------------------------ R6 for_each reports exactly the live runs
     enums = fb.find(pred=lambda f: ALLOC_REC.match(f.record or "") and f.name == "for_each" and f.has_cfg())
     ctx.floor("C14.R6", len(enums), 2, "IdAllocator::for_each instances")
@@ -396,6 +397,33 @@ def run(ctx):
         ctx.ob("C14.R6d", inst, ok_d and nd >= 4, lam.loc,
                "the scan pointer and the running id must advance by the same amount in every branch (found: skip the boundary "
                "element in both; not found: neither)", site="for_each@advance")
+
+
+def thread_id_instance_agreement(ctx, rule, fb):
+    """ThreadIdImpl<Leaky> has one id allocator per (tag type, Leaky): the value a thread holds, the bound of 'ever used' and the
+    enumeration of live ids must all come from that same instance"""
+    n = 0
+    for fn in fb.find(pred=lambda f: re.match(r"^babylon::internal::ThreadIdImpl<.*>$", f.record or "") and
+                      f.name in ("current_thread_id", "end", "for_each") and f.has_cfg()):
+        own = re.match(r"^babylon::internal::ThreadIdImpl<(.*)>$", fn.record).group(1)
+        tag = (fn.d.get("targl") or [None])[0]
+        insts = [ev for _, ev in fn.all_events() if ev["e"] == "call" and ev.get("name") == "instance" and
+                 "IdAllocatorFotType<" in (ev.get("callee", "") or "")]
+        if not insts:
+            continue
+        n += 1
+        bad = []
+        for ev in insts:
+            m = re.search(r"IdAllocatorFotType<(.*)>::instance$", ev.get("callee", ""))
+            args = m.group(1) if m else ""
+            flav = args.rsplit(",", 1)[-1].strip() if "," in args else "false"
+            if flav != own or (tag is not None and not args.startswith(tag)):
+                bad.append(args)
+        ctx.ob(rule, "%s<%s>" % (L.short(fn)[:90], tag), not bad, fn.loc,
+               "ThreadIdImpl<%s>::%s<%s> uses the allocator instance IdAllocatorFotType<%s>: ids, the 'ever used' bound and the "
+               "live-id enumeration of one thread-id flavour must come from one allocator, or for_each_alive follows the lifetimes "
+               "of other threads" % (own, fn.name, tag, "; ".join(bad)), site="ThreadIdImpl::%s@same-allocator" % fn.name)
+    ctx.floor(rule, n, 5, "ThreadIdImpl members that pick an allocator instance")
 
 
 def L_deep_field(desc, name):
